@@ -153,7 +153,7 @@ class Model:
                 if None (default), the raw complex coefficients are printed
         """
         func = (lambda x: x) if func is None else func
-        a = list(self.pin_dic.keys())
+        a = [pin.name for pin in self.pin_dic]
         ind = list(self.pin_dic.values())
         indsort = np.argsort(a)
         a = [a[i] for i in indsort]
